@@ -1110,12 +1110,21 @@ class ExcelCompiler:
                     # changed, its stored result is not known to be good
                     self._reset(dependant)
 
+                failed = None
                 for precedent_address in dependant.needed_addresses:
                     if precedent_address.address not in self.cell_map:
-                        self._gen_graph(precedent_address, recursed=True)
+                        try:
+                            self._gen_graph(precedent_address, recursed=True)
+                        except Exception as exc:
+                            # connect the other precedents, the cell may
+                            # evaluate without this one: ROW(), COLUMN()
+                            failed = failed or exc
+                            continue
 
                     self.dep_graph.add_edge(
                         self.cell_map[precedent_address.address], dependant)
+                if failed is not None:
+                    raise failed
         except Exception:
             # the ranges queued by a build which failed are calculated when
             # they are read, not by the next build, which may not need them
